@@ -255,4 +255,19 @@ theorem filter_header_from_source (ids authors : List Bytes) (kinds : List Nat) 
     Src.filterHeader size a b c none none none = Src.filterHeader size a b c (some U32MAX) (some 0) (some U64MAX) :=
   ⟨Pocket.filter_header_from_source ids authors kinds tagBytes since «until» limit, filter_defaults_from_source size a b c⟩
 
+/-- **the whole writer of `Filter::from_parts` as `filter.rs` spells it today**: the 32-byte header followed by the copy loops over ids,
+authors and kinds and the tag section (both translated on every run; the loops as random-access writes through the moving `p`). On a
+buffer that starts with the header, for all 32-byte ids and authors, all kinds and every tag section, the loops complete it to the
+model's `encodeFilterWith` and leave the rest of the buffer alone -/
+theorem filter_arrays_from_source (ids authors : List Bytes) (kinds : List Nat) (tagBytes Y : Bytes) (since «until» limit : Nat)
+    (hi : ∀ x ∈ ids, x.length = 32) (ha : ∀ x ∈ authors, x.length = 32) :
+    Src.filterArraysWrite ids authors kinds tagBytes
+        (Src.filterHeader (filterSize ids.length authors.length kinds.length tagBytes.length) ids.length authors.length kinds.length
+          (some limit) (some since) (some «until») ++ Y) =
+      encodeFilterWith ids authors kinds tagBytes since «until» limit ++
+        Y.drop (32 * ids.length + 32 * authors.length + 2 * kinds.length + tagBytes.length) := by
+  rw [Pocket.filter_arrays_from_source ids authors kinds tagBytes _ Y hi ha (by simp [Src.filterHeader]),
+    Pocket.filter_header_from_source ids authors kinds tagBytes since «until» limit]
+  simp [List.append_assoc]
+
 end Pocket.C19
